@@ -63,13 +63,13 @@ async def open_kind(kind, ports, oport, uport):
         rep, bh, bp = await socks5_connect(c, "0.0.0.0", 0, cmd=3)
         assert rep == 0, rep
         u = socket.socket(socket.AF_INET, socket.SOCK_DGRAM)
-        u.bind(("127.0.0.1", 0))
+        u.bind(("127.0.0.1", free_port()))
         u.setblocking(False)
         hdr = b"\0\0\0" + addr_v5("127.0.0.1", uport)
         return {"kind": kind, "c": c, "u": u, "relay": ("127.0.0.1", bp), "hdr": hdr, "src": c.local[1]}
     if kind == "revudp":
         u = socket.socket(socket.AF_INET, socket.SOCK_DGRAM)
-        u.bind(("127.0.0.1", 0))
+        u.bind(("127.0.0.1", free_port()))
         u.setblocking(False)
         return {"kind": kind, "u": u, "relay": ("127.0.0.1", ports["revudp"]), "hdr": b"", "src": u.getsockname()[1]}
     raise ValueError(kind)
